@@ -144,6 +144,38 @@ func buildEvents(wd *World, r *rng.R) []event {
 			return wd.tryReceive(sim.NewTx([]wire.OutPoint{{Hash: p.TxHash(), Index: uint32(len(p.TxOut))}}, nil, pay, 0, nil)) + "+" +
 				wd.tryReceive(sim.NewTx([]wire.OutPoint{{Hash: p.TxHash(), Index: math.MaxUint32}}, nil, pay, 0, nil))
 		}},
+		// several inputs on ONE previous transaction, a later one out of range (a per-transaction cache of the
+		// previous transaction must not bypass the range check): unconfirmed and inside a block, previous
+		// transaction mined, pending, or in the same block
+		event{name: "second-input-on-same-prev-out-of-range", run: func(wd *World) string {
+			cs := wd.coinsOf(A, -1, false)
+			if len(cs) == 0 {
+				return "skip:no-coin"
+			}
+			c := cs[0]
+			res := ""
+			for _, bad := range []uint32{uint32(c.nout), uint32(c.nout) + 5, math.MaxUint32} {
+				ins := []wire.OutPoint{c.op, {Hash: c.op.Hash, Index: bad}}
+				res += wd.tryReceive(sim.NewTx(ins, nil, pay, 0, nil)) + "+"
+				ins3 := []wire.OutPoint{wd.someStrangerCoin(), c.op, {Hash: c.op.Hash, Index: bad}}
+				res += wd.tryReceive(sim.NewTx(ins3, nil, pay, 0, nil)) + "+"
+			}
+			ins := []wire.OutPoint{c.op, {Hash: c.op.Hash, Index: uint32(c.nout) + 5}}
+			return res + wd.tryBlock(nil, []*wire.MsgTx{sim.NewTx(ins, nil, pay, 0, nil)})
+		}},
+		event{name: "second-input-on-same-pending-prev-out-of-range", run: func(wd *World) string {
+			if len(wd.pend) == 0 {
+				return "skip:no-pending"
+			}
+			p := wd.pend[0]
+			ins := []wire.OutPoint{{Hash: p.TxHash(), Index: 0}, {Hash: p.TxHash(), Index: uint32(len(p.TxOut)) + 5}}
+			return wd.tryReceive(sim.NewTx(ins, nil, pay, 0, nil)) + "+" + wd.tryBlock(nil, []*wire.MsgTx{sim.NewTx(ins, nil, pay, 0, nil)})
+		}},
+		event{name: "block-prev-in-same-block-second-input-out-of-range", run: func(wd *World) string {
+			p1 := sim.NewTx([]wire.OutPoint{wd.someStrangerCoin()}, nil, []sim.Out{{Script: stdScript(a0.sh), Value: 3000}, {Script: wd.stranger[0], Value: 1000}}, 0, nil)
+			t := sim.NewTx([]wire.OutPoint{{Hash: p1.TxHash(), Index: 0}, {Hash: p1.TxHash(), Index: 7}}, nil, pay, 0, nil)
+			return wd.tryBlock(nil, []*wire.MsgTx{p1, t})
+		}},
 		event{name: "unconfirmed-same-again", run: func(wd *World) string {
 			if len(wd.pend) == 0 {
 				return "skip:no-pending"
